@@ -2,6 +2,7 @@ import GE.Codec
 import GE.Model.Path
 import GE.Model.VarName
 import GE.Model.JsLit
+import GE.Model.ExprGen
 /-!
 Model driver: one request per line (`op TAB field…`), one answer line per request.
 Unknown ops answer `bad-op` (never defaulted).
@@ -11,6 +12,23 @@ open GE.Codec
 
 def chars (s : String) : List Char := s.toList
 def str (l : List Char) : String := String.ofList l
+
+/-- scopes descriptor `tree:lv,tree:lv,…` as used by the harness hook (names s<i>, t<i>, l<i>, p<i>, m<i>) -/
+def parseScopes (s : String) : List GE.Gen.ScopeInfo :=
+  let parts := (s.splitOn ",").filter (· ≠ "")
+  (List.range parts.length).zip parts |>.map fun (i, part) =>
+    let kv := part.splitOn ":"
+    let tree := kv.getD 0 "0" == "1"
+    let lv := (kv.getD 1 "0").toNat?.getD 0
+    { var := s!"s{i}", tree := if tree then some s!"t{i}" else none, lv := lv,
+      lvName := s!"l{i}", absPath := s!"p{i}", modName := s!"m{i}" }
+
+def withExpr (sx : String) (k : GE.Expr → String) : String :=
+  match parseSExp sx with
+  | some se => match GE.exprOfSExp se with
+    | some e => k e
+    | none => "bad-ast"
+  | none => "bad-sexp"
 
 def step (fs : List String) : String :=
   match fs with
@@ -37,6 +55,12 @@ def step (fs : List String) : String :=
         else some (str (GE.JsLit.genLitStr (chars pre ++ [Char.ofNat v] ++ chars suf)))
       esc (String.intercalate (String.singleton (Char.ofNat 31)) outs)
     | _, _ => "bad-op"
+  | ["expr_gen", sx, scopes] =>
+    withExpr sx fun e =>
+      let sc := parseScopes scopes
+      if !GE.Gen.scopesInRange sc.length e then "PANIC" else
+      let o := GE.Gen.prepare sc e
+      esc (GE.Gen.spellStmts o.stmts) ++ "\t" ++ esc (GE.Gen.spellAll o.toks) ++ "\t" ++ toString (GE.Gen.aboveCond e)
   | _ => "bad-op"
 
 partial def loop (h : IO.FS.Stream) (out : IO.FS.Stream) : IO Unit := do
